@@ -1,6 +1,7 @@
 import SV.Driver.Util
 import SV.Model.Region
 import SV.Model.Blob
+import SV.Model.HttpRange
 /-
 svdriver_c06: line protocol for the C06 models.
   rs.reset                 -> ok
@@ -77,6 +78,44 @@ def parseStatus? : String → Option SV.Blob.Status
   | "neterr" => some .netErr
   | _ => some .other
 
+/-! ### http-… ops (SV.Model.HttpRange) -/
+open SV.HttpRange in
+def parseItem? (w : String) : Option MItem :=
+  if w = "x" then some .broken else
+  match w.splitOn ":" with
+  | ["p", cr, body] => do
+    let cr ← unhex? cr
+    let body ← unhex? body
+    some (.part cr body)
+  | _ => none
+
+open SV.HttpRange in
+/-- `<status> <ctype b|m|o> <hexContentLength> <hexContentRange> <hexBody> <item>*` -/
+def parseWire? : List String → Option Wire
+  | status :: ct :: cl :: cr :: body :: items => do
+    let status ← parseNat? status
+    let ct ← (match ct with | "b" => some CType.bad | "m" => some .multipart | "o" => some .other | _ => none)
+    let cl ← unhex? cl
+    let cr ← unhex? cr
+    let body ← unhex? body
+    let items ← items.mapM parseItem?
+    some { status := status, ctype := ct, contentLength := cl, contentRange := cr, body := body, items := items }
+  | _ => none
+
+open SV.HttpRange in
+def showStream : Option (List WPart × Bool) → String
+  | none => "err"
+  | some (ps, bad) =>
+    let body := if ps.isEmpty then "-" else
+      ",".intercalate (ps.map fun p => s!"{p.b}:{p.e}:{p.data.length}:{fnv p.data}")
+    s!"parts {body} end={if bad then "err" else "eof"}"
+
+open SV.HttpRange in
+def showHdr : HdrOut → String
+  | .noRequest => "norequest"
+  | .panic => "panic"
+  | .header h => s!"hdr={hex h}"
+
 def showChunks (cs : List Region) : String := showRs cs
 
 def b2s (b : Bool) : String := if b then "1" else "0"
@@ -131,6 +170,43 @@ def step (s : St) : List String → St × String
       let (f', out, nreq) := SV.Blob.fetchSM ⟨single = "1", redirected = "1"⟩ (retry = "1") sts rf
       (s, s!"{if out == .body then "body" else "error"} reqs={nreq} single={b2s f'.singleRange} redirected={b2s f'.redirected}")
     | _, _ => (s, "bad-op")
+  | ["http-parserange", h] =>
+    match unhex? h with
+    | some h =>
+      match SV.HttpRange.parseRange h with
+      | some (b, e, sz) => (s, s!"ok {b} {e} {sz}")
+      | none => (s, "err")
+    | none => (s, "bad-op")
+  | "http-range" :: single :: regs =>
+    if single ≠ "0" ∧ single ≠ "1" then (s, "bad-op") else
+    match regs.mapM parseReg? with
+    | some rs => (s, showHdr (SV.HttpRange.rangeHeader (single = "1") rs))
+    | none => (s, "bad-op")
+  | "http-rfc" :: [h] =>
+    match unhex? h with
+    | some h =>
+      match SV.HttpRange.rfcParse h with
+      | some rs => (s, "ok " ++ ",".intercalate (rs.map fun r => s!"{r.1}:{r.2}"))
+      | none => (s, "err")
+    | none => (s, "bad-op")
+  | "http-fetch" :: wire =>
+    match parseWire? wire with
+    | some w => (s, showStream (SV.HttpRange.stream w))
+    | none => (s, "bad-op")
+  | "http-read" :: o :: n :: single :: wire =>
+    match parseNat? o, parseNat? n, parseWire? wire with
+    | some o, some n, some w =>
+      if single ≠ "0" ∧ single ≠ "1" then (s, "bad-op") else
+      let hdr := match SV.Blob.missingFor s.P s.bs o n with
+        | some ms => if ms.isEmpty then "none" else
+            showHdr (SV.HttpRange.rangeHeader (single = "1") (ms.map SV.Blob.Chunk.toRegion))
+        | none => "misaligned"
+      let (bs', r) := SV.HttpRange.readAtW s.P s.bs o n w
+      let out := match r with
+        | none => "err"
+        | some (k, buf) => s!"ok k={k} sum={fnv (buf.take k)}"
+      ({ s with bs := bs' }, s!"{out} {hdr} fetched={totalSize bs'.fetched}")
+    | _, _, _ => (s, "bad-op")
   | ["rs.reset"] => ({ s with rs := [] }, "ok")
   | ["rs.add", b, e] =>
     match parseInt? b, parseInt? e with
